@@ -23,6 +23,7 @@ func init() {
 	register("C09", runC09, checkC09)
 	register("C10", runC10, checkC10)
 	register("C11", runC11, checkC11)
+	register("C13", runC13, checkC13R)
 	register("C14", runC14, checkC14)
 	register("C15", runC15, checkC15)
 	register("C20", runC20, checkC20)
@@ -106,4 +107,14 @@ func doReplay(id string, def checkDef, file string) int {
 	}
 	fmt.Printf("VIOLATION property=%s replay=%s\n  sig=%s\n  expected: %s\n  observed: %s\n", id, file, f.Sig, f.Expected, f.Observed)
 	return 1
+}
+
+func checkC13R(c Case) *Failure {
+	switch c.Rule {
+	case "double-negation", "commutativity":
+		return c13Law(c)
+	case "operand-sequence":
+		return c13Seq(c)
+	}
+	return checkC13(c)
 }
